@@ -587,7 +587,10 @@ def run_own_grid(case):
         tdesc = srcs[0] if how == "rebuilt" else dict(srcs[0], ac=not srcs[0]["ac"])
         _, ref_pad, pad_value = padding_arg(case["padding"])
         for b in range(1, N):
-            if not grids_equal(res.grids()[b], targets[0]):
+            # (when every image already lives on the target's sample positions deepali returns the batch itself: Grid.__eq__
+            # ignores the align_corners flag by design, so the flag of the result is only asserted when image b was resampled)
+            same_positions = all(sgrids[k] == targets[0] for k in range(N))
+            if not (res.grids()[b] == targets[0] and (same_positions or res.grids()[b].align_corners() == targets[0].align_corners())):
                 raise Violation("result_grid", f"image {b} of the result does not carry its target grid")
             geo = Geometry(srcs[b], tdesc, case["mode"])
             r, _, _ = compare(out[b], refdata[b], geo, case["mode"], ref_pad, pad_value,
